@@ -8,15 +8,18 @@ from .. import flow
 PID = "C12"
 LEVEL = "other"
 EXPLANATION = (
-    "Static analysis over MIR of the async (WS) client and the HTTP client. Decided: R1 in both clients the loop that "
-    "creates the placeholder slots iterates over the *request's* id range (result of the id-range reservation) or over a "
-    "range that was validated as the key of a pending batch (complete_pending_batch's Some arm dominates the loop), never "
-    "over the reply; R2 a reply element is placed at slot id - start computed with checked_sub and a bounds-checked "
-    "get_mut (no plain subtraction, no indexing operator), the id comes from the element's own id(), and a miss returns "
-    "an error built from NotPendingRequest; R3 the id range is built with checked_add and the request entries take their "
-    "ids from zip(id_range); R4 (HTTP client) the success/failure counters are not incremented per reply element; R5 "
-    "every id of a batch is reserved from the allocator (one atomic fetch_add of the batch length), so no later request "
-    "can carry an id of a batch that is still pending. NOT decided: behaviour under permutations as such."
+    'Static analysis over MIR of the async (WS) client and the HTTP client. Decided: R1 in both clients the loop that '
+    "creates the placeholder slots iterates over the *request's* id range (result of the id-range reservation) or "
+    "over a range that was validated as the key of a pending batch (complete_pending_batch's Some arm dominates the "
+    'loop), never over the reply; R2 a reply element is placed at slot id - start computed with checked_sub and a '
+    "bounds-checked get_mut (no plain subtraction, no indexing operator), the id comes from the element's own id(), "
+    'and a miss returns an error built from NotPendingRequest; R3 the id range is built with checked_add and the '
+    'request entries take their ids from zip(id_range); R4 (HTTP client) the success/failure counters are not '
+    'incremented per reply element; R5 every id of a batch is reserved from the allocator (one atomic fetch_add of '
+    'the batch length), so no later request can carry an id of a batch that is still pending. R6 '
+    'Id::try_parse_inner_as_number is exact (no float, no numeric `as` cast, strings parsed as u64 only); R7 the '
+    'pending-batch table is keyed by the whole id range in insert and complete. NOT decided: behaviour under '
+    'permutations as such.'
 )
 RULE_TEXT = "instances = placeholder loops, slot computations, range constructions, id reservations in the two clients"
 TRUSTED = ["rustc MIR", "std Range/Vec/zip semantics", "AtomicUsize::fetch_add atomicity"]
@@ -37,6 +40,40 @@ def _placeholder_pushes(F, body):
     return out
 
 
+def _iteration(F, body, b, c):
+    """how the placeholder built at call c (in body b, possibly a closure nested in `body`) is repeated:
+    returns (body holding the source, operand that is iterated, block reached once all placeholders exist) or None.
+    Two spellings: a `for` loop around the construction, or `<source>.map(|_| placeholder)` consumed by extend/collect."""
+    nx = enclosing_loop_next(b, c.bb)
+    if nx is not None:
+        done = None
+        for sb, arms, other in flow.switch_on(b, nx.dest["l"]):
+            if arms.get("0") is not None:
+                done = arms.get("0")
+        return b, nx.args[0], done, nx.bb
+    if b.kind == "Closure":
+        P = F.parent_body(b)
+        if P is None:
+            return None
+        cl = None
+        for bi, blk in enumerate(P.blocks):
+            for st in blk["st"]:
+                if st["s"] == "assign" and st["rv"]["k"] == "agg" and st["rv"].get("def") == b.path:
+                    cl = st["pl"]["l"]
+        if cl is None:
+            return None
+        holders = follow_value(P, cl)
+        for m in P.calls_to(r"^std::iter::Iterator::map$"):
+            pa = op_place(m.args[1])
+            if pa is None or pa["l"] not in holders:
+                continue
+            res = follow_value(P, m.dest["l"])
+            for cons in P.calls_to(r"Extend<.*>>::extend$|^std::iter::Extend::extend$|^std::iter::Iterator::collect$|Vec::<.*>::extend$"):
+                if any(op_place(a) is not None and op_place(a)["l"] in res for a in cons.args):
+                    return P, m.args[0], cons.target, cons.bb
+    return None
+
+
 def r1_sized_by_request(ctx):
     F, R = ctx.F, ctx.R
     tr = ctx.tracer(follow_callers=False, follow_fields=False, stop_at_call=r"next_batch_id_range$|generate_batch_id_range$")
@@ -50,12 +87,13 @@ def r1_sized_by_request(ctx):
             continue
         for b, c in ph:
             n += 1
-            nx = enclosing_loop_next(b, c.bb)
             key = "%s:placeholders" % label
-            if nx is None:
-                R.bad("C12.R1", key, "placeholders in %s are not created by a loop over the request's id range" % short(b.path), where(c))
+            it = _iteration(F, body, b, c)
+            if it is None:
+                R.bad("C12.R1", key, "placeholders in %s are not created by iterating over the request's id range" % short(b.path), where(c))
                 continue
-            leaves = tr.origins(b, nx.args[0])
+            b, src_op, _done, loop_bb = it
+            leaves = tr.origins(b, src_op)
             ok = False
             why = []
             for lf in leaves:
@@ -69,7 +107,7 @@ def r1_sized_by_request(ctx):
                     for v in val:
                         for sb, arms, other in flow.switch_on(b, v.dest["l"]):
                             st = arms.get("1")
-                            if st is not None and b.dominates(st, nx.bb):
+                            if st is not None and b.dominates(st, loop_bb):
                                 good = True
                     if good:
                         ok = True
@@ -101,11 +139,9 @@ def r1_sized_by_request(ctx):
         ph = _placeholder_pushes(F, body)
         exits = []
         for b, c in ph:
-            nx = enclosing_loop_next(b, c.bb)
-            if nx is not None and b.path == body.path:
-                for sb, arms, other in flow.switch_on(b, nx.dest["l"]):
-                    if arms.get("0") is not None:
-                        exits.append(arms.get("0"))
+            it = _iteration(F, body, b, c)
+            if it is not None and it[0].path == body.path and it[2] is not None:
+                exits.append(it[2])
         ems = body.calls_to(emit)
         R.check(bool(ems), "C12.R1", "%s:emission-site" % label, "%s client hands the result back" % label, "no result emission found in %s" % short(body.path), "%s:%d" % (body.file, body.lo))
         for e in ems:
